@@ -1,8 +1,11 @@
 """
 Planted-mutation self-test of the C09 quick check.  Usage (from the verif worktree):
     VERIF_REPO=<repo worktree> /venv/bin/python notes/C09_mutations.py
+    VERIF_REPO=<repo worktree> /venv/bin/python notes/C09_mutations.py [--oracle] [name fragment ...]
 Each mutation is applied to the repo worktree (uncommitted), `./check C09 --tier quick` must exit 1 with a
-VIOLATION line, and the worktree is restored with `git checkout -- .` straight afterwards.
+VIOLATION line, and the worktree is restored with `git checkout -- .` straight afterwards.  With --oracle the
+model / implementation comparison is switched off (VERIF_C09_ORACLE_ONLY): the oracle on the implementation alone
+must find the violation.
 """
 import os
 import subprocess
@@ -39,6 +42,73 @@ MUTATIONS = [
     ('F14 fix reverted (dots of the factor indentation)', 'pybufrkit/utils.py', ".strip().lstrip('. ')", '.strip()', 0),
     ('F8 fix reverted (221-suppressed element printed with its name)', 'pybufrkit/renderer.py',
      "ret.append('{}{}'.format(indent, decoded_node.descriptor))", "ret.append('{}{}'.format(indent, decoded_node))", 0),
+    # -- siblings of seeded/C09-1: something of a subset is taken from another subset / an attribute hangs on the wrong owner
+    ('S1 wiring: nodes of the previous subset reused when the decoded descriptors are equal (= seeded/C09-1)', 'pybufrkit/templatedata.py',
+     "            self.decoded_nodes = self.decoded_nodes_all_subsets[idx_subset]\n",
+     "            if idx_subset > 0 and self.decoded_descriptors_all_subsets[idx_subset] == self.decoded_descriptors_all_subsets[idx_subset - 1]:\n"
+     "                self.decoded_nodes_all_subsets[idx_subset] = self.decoded_nodes_all_subsets[idx_subset - 1]\n"
+     "                continue\n"
+     "            self.decoded_nodes = self.decoded_nodes_all_subsets[idx_subset]\n", 0),
+     ('S2 wiring: node trees cached across subsets, keyed on the descriptor ids (any earlier subset)', 'pybufrkit/templatedata.py',
+     "            self.decoded_nodes = self.decoded_nodes_all_subsets[idx_subset]\n",
+     "            cache = self.__dict__.setdefault('_nodes_by_ids', {})\n"
+     "            key = tuple(str(d) for d in self.decoded_descriptors_all_subsets[idx_subset])\n"
+     "            if key in cache:\n"
+     "                self.decoded_nodes_all_subsets[idx_subset] = cache[key]\n"
+     "                continue\n"
+     "            cache[key] = self.decoded_nodes_all_subsets[idx_subset]\n"
+     "            self.decoded_nodes = self.decoded_nodes_all_subsets[idx_subset]\n", 0),
+    ('S3 wiring: bitmap links of the previous subset (stale) when it has the same keys', 'pybufrkit/templatedata.py',
+     "            self.bitmap_links = self.bitmap_links_all_subsets[idx_subset]\n",
+     "            self.bitmap_links = self.bitmap_links_all_subsets[idx_subset]\n"
+     "            if idx_subset > 0 and sorted(self.bitmap_links) == sorted(self.bitmap_links_all_subsets[idx_subset - 1]):\n"
+     "                self.bitmap_links = self.bitmap_links_all_subsets[idx_subset - 1]\n", 0),
+    ('S4 wiring: decoded values of subset 0 (stale replication counts)', 'pybufrkit/templatedata.py',
+     'self.decoded_values = self.decoded_values_all_subsets[idx_subset]', 'self.decoded_values = self.decoded_values_all_subsets[0]', 0),
+    ('S5 wiring: marker value attached to the element after its owner', 'pybufrkit/templatedata.py',
+     '        self.index_to_node[self.bitmap_links[attr_node.index]].add_attribute(attr_node)',
+     '        owner = self.bitmap_links[attr_node.index]\n'
+     '        self.index_to_node[owner + 1 if owner + 1 in self.index_to_node and owner + 1 != attr_node.index else owner].add_attribute(attr_node)', 0),
+    ('S6 wiring: quality value attached to the element before its owner', 'pybufrkit/templatedata.py',
+     '                self.index_to_node[self.bitmap_links[node.index]].add_attribute(node)',
+     '                owner = self.bitmap_links[node.index]\n'
+     '                self.index_to_node[owner - 1 if owner - 1 in self.index_to_node else owner].add_attribute(node)', 0),
+    ('S7 nested text: attribute lines printed at the indentation of their owner', 'pybufrkit/renderer.py',
+     '                    decoded_node, decoded_descriptors, decoded_values, indent + INDENT_CHARS\n', 
+     '                    decoded_node, decoded_descriptors, decoded_values, indent\n', 0),
+    ('S8 nested text: nodes of subset 1 shown for every subset with the same descriptors', 'pybufrkit/renderer.py',
+     "                    template_data.decoded_nodes_all_subsets[idx_subset],\n"
+     "                    template_data.decoded_descriptors_all_subsets[idx_subset],\n"
+     "                    template_data.decoded_values_all_subsets[idx_subset],\n"
+     "                    indent=''\n",
+     "                    template_data.decoded_nodes_all_subsets[0 if template_data.decoded_descriptors_all_subsets[idx_subset] == template_data.decoded_descriptors_all_subsets[0] else idx_subset],\n"
+     "                    template_data.decoded_descriptors_all_subsets[idx_subset],\n"
+     "                    template_data.decoded_values_all_subsets[idx_subset],\n"
+     "                    indent=''\n", 0),
+    ('S9 nested JSON: nodes of subset 1 shown for every subset with the same descriptors', 'pybufrkit/renderer.py',
+     "                    template_data.decoded_nodes_all_subsets[idx_subset],\n"
+     "                    template_data.decoded_descriptors_all_subsets[idx_subset],\n"
+     "                    template_data.decoded_values_all_subsets[idx_subset],\n"
+     "                )\n",
+     "                    template_data.decoded_nodes_all_subsets[0 if template_data.decoded_descriptors_all_subsets[idx_subset] == template_data.decoded_descriptors_all_subsets[0] else idx_subset],\n"
+     "                    template_data.decoded_descriptors_all_subsets[idx_subset],\n"
+     "                    template_data.decoded_values_all_subsets[idx_subset],\n"
+     "                )\n", 0),
+    ('S10 flat text: link column taken from the bitmap links of subset 1', 'pybufrkit/renderer.py',
+     'bitmap_links = template_data.bitmap_links_all_subsets[idx_subset]',
+     'bitmap_links = template_data.bitmap_links_all_subsets[idx_subset]\n'
+     '            if sorted(bitmap_links) == sorted(template_data.bitmap_links_all_subsets[0]):\n'
+     '                bitmap_links = template_data.bitmap_links_all_subsets[0]', 0),
+    ('S11 flat text: link column shows the 0-based owner index', 'pybufrkit/renderer.py',
+     'fixed_width_repr_of_int(bitmap_links[idx] + 1, 6, pad_left=False)', 'fixed_width_repr_of_int(bitmap_links[idx], 6, pad_left=False)', 0),
+    ('S12 nested JSON: attributes of a replication factor not shown', 'pybufrkit/renderer.py',
+     "                        n['factor'] = self._render_template_data_value_node(\n"
+     "                            decoded_node.factor, decoded_descriptors, decoded_values,\n"
+     "                        )\n",
+     "                        n['factor'] = self._render_template_data_value_node(\n"
+     "                            decoded_node.factor, decoded_descriptors, decoded_values,\n"
+     "                        )\n"
+     "                        n['factor'].pop('attributes', None)\n", 0),
 ]
 
 
@@ -52,7 +122,11 @@ def replace_nth(s, old, new, n):
 
 
 def main():
-    only = sys.argv[1:]
+    only = [a for a in sys.argv[1:] if not a.startswith('--')]
+    env = dict(os.environ)
+    if '--oracle' in sys.argv:
+        # only the property oracle on the implementation may report (no model / implementation comparison)
+        env['VERIF_C09_ORACLE_ONLY'] = '1'
     results = []
     for name, fn, old, new, n in MUTATIONS:
         if only and not any(o in name for o in only):
@@ -63,7 +137,7 @@ def main():
         try:
             with open(path, 'w') as f:
                 f.write(replace_nth(src, old, new, n))
-            p = subprocess.run(['./check', 'C09', '--tier', 'quick'], cwd=HERE, stdout=subprocess.PIPE, stderr=subprocess.STDOUT, text=True)
+            p = subprocess.run(['./check', 'C09', '--tier', 'quick'], cwd=HERE, env=env, stdout=subprocess.PIPE, stderr=subprocess.STDOUT, text=True)
             lines = [l for l in p.stdout.split('\n') if l.startswith('VIOLATION')]
             first = ''
             out = p.stdout.split('\n')
